@@ -52,6 +52,12 @@ def check(repo, res, tier):
     l3(repo, res, canon)
     l4a(repo, res, canon, logic)
     l4b(repo, res, canon, logic)
+    # L5: an observation can always reach FINISHED (else the telescope never goes idle)
+    from . import c08
+    from .common import borrow
+    res.rule('C05.L5', 'observation life cycle can complete: adopted C08.A7/A8/A9 (is_finished needs ast+duration and the '
+                       'in-use flag, which is cleared only when no arrays are held)')
+    borrow(repo, res, tier, c08, {'C08.A7', 'C08.A8', 'C08.A9'}, 'C05.L5')
 
 
 # ---------------------------------------------------------------------- L1
